@@ -14,7 +14,7 @@
   (A) universal theorems (this file):
       MIPS (mips, mipsel): addu subu and or xor nor (incl. capstone's move/negu forms) · sll srl sra (and nop) · sllv srlv srav ·
       addiu andi ori xori · lui · slt sltu slti sltiu · movn movz · mfhi mflo mthi mtlo · mult multu · lb lbu lh lhu lw · sb sh sw ·
-      add addi sub (both paths: `lift_correct_single` without overflow, `lift_overflow_stops` with) ·
+      lwl lwr in both byte orders · add addi sub (both paths: `lift_correct_single` without overflow, `lift_overflow_stops` with) ·
       beq bne bgez bgtz blez bltz b j, each with ANY of the above in the delay slot (`lift_correct_pair`).
       PowerPC (every mnemonic the dispatcher lifts except bdnzl and the conditional bclr forms): addi/li addis/lis · add subf addze
       (with Rc) · mr · nop · rlwinm/slwi (with Rc) · srawi (with Rc) · cmpwi cmplwi · lbz lwz lwzu · stw stwu stmw · mflr mtlr mtctr ·
@@ -22,7 +22,7 @@
   (B) none.
   (C) differential only (`unproved_classes` in the evidence):
       MIPS: div divu (zero divisor: finding) · madd maddu msub msubu mul · clz clo (loop graphs) ·
-      lwl lwr swl swr ll sc pref sync · teq syscall break rdhwr · jr jal jalr bal bgezal bltzal (known findings: target /
+      swl swr (mirrored, not proved) ll sc pref sync · teq syscall break rdhwr · jr jal jalr bal bgezal bltzal (known findings: target /
       condition / link evaluated AFTER the delay slot).   PowerPC: bdnzl (finding: lifted as nop), conditional bclr.
 
   `StateOK σ`: the IL state defines `$at…$ra`, `$hi`, `$lo` as reduced 32-bit constants.  `absState σ` is the machine state
@@ -34,6 +34,7 @@ import FalconProofs.C02.InstrOK
 import FalconProofs.C02.PpcMask
 import FalconProofs.C02.PpcTop
 import FalconProofs.C02.Jr
+import FalconProofs.C02.Unaligned
 
 namespace Falcon.C02
 open Falcon Falcon.Isa.Mips
@@ -43,6 +44,7 @@ open Falcon Falcon.Isa.Mips
     IL semantics completes with the same registers, memory and next pc. -/
 theorem lift_correct_single (big : Bool) (w : Word) (addr : Nat) (r : BTR) (σ : State)
     (hl : liftBTR big [w] addr = some r) (ha : addr + 4 < 2 ^ 32) (hσ : StateOK σ)
+    (hend : (absState σ).bigEndian = big)
     (s' : St) (pc' : Word) (u : Bool) (hx : step w (BitVec.ofNat 32 addr) (absState σ) = .next s' pc' u) :
     ∃ σ', runBTR r σ = .next σ' [pc'.toNat] ∧ StateOK σ' ∧ Eqv u (absState σ') s' ∧ σ'.endian = σ.endian := by
   simp only [liftBTR] at hl
@@ -52,14 +54,38 @@ theorem lift_correct_single (big : Bool) (w : Word) (addr : Nat) (r : BTR) (σ :
     rw [hd] at hl
     simp only [Option.bind] at hl
     simp only [step, hd] at hx
-    have hnb : i.isBranch = false := by
-      unfold liftSingle at hl
+    cases hs : liftSingle i addr with
+    | some r' =>
+      rw [hs] at hl
+      simp only [Option.orElse, Option.some.injEq] at hl; subst hl
+      have hnb : i.isBranch = false := by
+        unfold liftSingle at hs
+        split at hs
+        · cases hs
+        · rename_i h; simpa using h
+      rw [if_neg (by simp [hnb])] at hx
+      obtain ⟨σ', hr, hsim⟩ := single_correct i (instrOK i) addr r' σ hs ha hσ s' pc' u hx
+      exact ⟨σ', hr, hsim.ok, hsim.eqv, hsim.endian⟩
+    | none =>
+      rw [hs] at hl
+      simp only [Option.orElse] at hl
+      -- lwl / lwr: the byte order the translator was created for must be the memory's
+      unfold liftUnalignedSingle at hl
       split at hl
+      · rename_i op rt base off
+        obtain ⟨f, hf, hr⟩ := Option.map_eq_some_iff.mp hl
+        subst hr
+        rw [if_neg (by simp [Instr.isBranch])] at hx
+        obtain ⟨hent, σ', hrun, hsim, hpc⟩ := unaligned_load_ok big op rt base off addr f σ _ s' pc' u hf hσ hend hx
+        refine ⟨σ', ?_, hsim.ok, hsim.eqv, hsim.endian⟩
+        simp only [runBTR]
+        rw [go_cons_done _ _ f [] σ σ' hent hrun, go_nil_one _ _ σ' (addr + 4) none rfl]
+        subst hpc
+        congr 2
+        have h4 : (4 : Word).toNat = 4 := rfl
+        simp only [BitVec.toNat_add, BitVec.toNat_ofNat, h4]
+        omega
       · cases hl
-      · rename_i h; simpa using h
-    rw [if_neg (by simp [hnb])] at hx
-    obtain ⟨σ', hr, hsim⟩ := single_correct i (instrOK i) addr r σ hl ha hσ s' pc' u hx
-    exact ⟨σ', hr, hsim.ok, hsim.eqv, hsim.endian⟩
 
 /-- **branch with delay slot, all fields, all slot instructions of (A), all states.**  For beq/bne/bgez/bgtz/blez/bltz/b/j:
     the lifted block latches the condition from the pre-state, runs the slot, then transfers control — exactly `step2`,
@@ -97,16 +123,31 @@ theorem lift_overflow_stops (big : Bool) (w : Word) (addr : Nat) (r : BTR) (σ :
     rw [hd] at hl
     simp only [Option.bind] at hl
     simp only [step, hd] at hx
-    unfold liftSingle at hl
-    split at hl
-    · cases hl
-    · rename_i hnb
-      rw [if_neg hnb] at hx
-      obtain ⟨f, hf, hr⟩ := Option.map_eq_some_iff.mp hl
-      subst hr
-      obtain ⟨hent, hrun⟩ := overflow_stops i addr f σ _ hf hσ hx
-      simp only [runBTR]
-      rw [runBTR.go]; simp only [hent, hrun]
+    cases hs : liftSingle i addr with
+    | some r' =>
+      rw [hs] at hl
+      simp only [Option.orElse, Option.some.injEq] at hl; subst hl
+      unfold liftSingle at hs
+      split at hs
+      · cases hs
+      · rename_i hnb
+        rw [if_neg hnb] at hx
+        obtain ⟨f, hf, hr⟩ := Option.map_eq_some_iff.mp hs
+        subst hr
+        obtain ⟨hent, hrun⟩ := overflow_stops i addr f σ _ hf hσ hx
+        simp only [runBTR]
+        rw [runBTR.go]; simp only [hent, hrun]
+    | none =>
+      rw [hs] at hl
+      simp only [Option.orElse] at hl
+      unfold liftUnalignedSingle at hl
+      split at hl
+      · rename_i op rt base off
+        exfalso
+        rw [if_neg (by simp [Instr.isBranch])] at hx
+        simp only [exec] at hx
+        cases op <;> simp only [doLoad] at hx <;> (repeat' split at hx) <;> first | (cases hx; done) | (injection hx with hx; cases hx)
+      · cases hl
 
 /-- the decision of a (non-linking) branch is taken in the pre-state: whatever the slot does, the next pc is the
     target iff the condition held BEFORE the slot -/
@@ -174,6 +215,8 @@ example : (liftBTR true [0x10850004#32, 0x24840001#32] 0x1000).isSome = true := 
 example : (liftBTR false [0x8c820010#32] 0x1000).isSome = true := by decide      -- lw $v0, 16($a0)
 example : (liftBTR true [0x00850018#32] 0x1000).isSome = true := by decide       -- mult $a0, $a1
 example : (liftBTR true [0x00851022#32] 0x1000).isSome = true := by decide       -- sub $v0, $a0, $a1
+example : (liftBTR false [0x88820003#32] 0x1000).isSome = true := by decide      -- lwl $v0, 3($a0) (mipsel)
+example : (liftBTR true [0x98820003#32] 0x1000).isSome = true := by decide       -- lwr $v0, 3($a0) (mips)
 example : (liftBTR false [0x20820001#32] 0x1000).isSome = true := by decide      -- addi $v0, $a0, 1
 example : (liftBTR true [0x0085100b#32] 0x1000).isSome = true := by decide       -- movn $v0, $a0, $a1
 example : (liftBTR true [0x00001010#32] 0x1000).isSome = true := by decide       -- mfhi $v0
